@@ -21,7 +21,7 @@
         count_covered = int(0.3 // 0.1) = 2 *)
 From Coq Require Import Lia.
 From Verif Require Import model.RingBuffer model.RingBufferSpec
-     proofs.RingBufferGaps proofs.RingBufferInv proofs.RingBufferObs.
+     proofs.RingBufferGaps proofs.RingBufferInv proofs.RingBufferObs proofs.RingBufferDecl.
 
 (* ------------------------------------------------------------------ stage 1: update + gap list *)
 Theorem C09_init : forall cs, cs <> [] -> Inv (init_rb cs) spec_init.
@@ -108,6 +108,27 @@ Proof.
   rewrite (window_ts_inv p al _ _ s e f HI). rewrite Hcap. reflexivity.
 Qed.
 
+(* what the abstract map IS, without recursion over updates: after any history the window ends at the
+   largest slot that ever occurred; a slot of that window holds the value written to it last (None if
+   never written or last written as missing); every other slot is empty.  (Hence the updates the
+   buffer rejects are exactly those that cannot influence this content.) *)
+Theorem C09_map_is_last_write : forall c h, 0 < c ->
+  let a := spec_run c spec_init h in
+  s_new a = hist_max h /\
+  (forall j, last_write j h <> None -> exists N, hist_max h = Some N /\ j <= N) /\
+  (forall j, s_map a j = match hist_max h with
+                         | Some N => if N - c + 1 <=? j then last_write j h else None
+                         | None => None
+                         end).
+Proof. exact spec_run_declarative. Qed.
+
+(* fill_value=None (documented raw mode): same slots; every slot holding a valid value is reported
+   with it; the remaining positions are unconstrained (the caller opted out of the fill) *)
+Theorem C09_window_raw_mode : forall p al b a s e, Inv b a ->
+  exists w, window_ts p al b s e None = RList w /\
+            raw_agrees a (spec_cover (cap b) a (norm_slot p al s) (norm_slot p al e)) w.
+Proof. exact window_ts_raw. Qed.
+
 (* ------------------------------------------------------------------ normalize_timestamp *)
 Theorem C09_normalize_grid_monotone : forall p al, 0 < p ->
   (forall k, norm_slot p al (ts_of p al k) = k) /\
@@ -154,5 +175,7 @@ Print Assumptions C09_only_window_slots.
 Print Assumptions C09_values_from_history.
 Print Assumptions C09_no_more_than_spanned.
 Print Assumptions C09_sliding_map.
+Print Assumptions C09_map_is_last_write.
+Print Assumptions C09_window_raw_mode.
 Print Assumptions C09_normalize_grid_monotone.
 Print Assumptions C09_normalize_nearest.
